@@ -95,6 +95,15 @@ Theorem C07_async_ok_agrees_with_sync : forall fl D t0 s0 steps s,
   a_d s = rs_d r /\ rs_errs r = [] /\ rs_srcfail r = false.
 Proof. exact async_ok_agrees_with_sync. Qed.
 
+(* ... and on ALL runs the synchronous model covers the asynchronous one: whatever the two processes do, the doer's
+   world is the one Model/Sync.run_steps computes under the fault plan "the doer dies after n commands" - so every
+   theorem stated for all fault plans (C01-C05, C07, C08, C12) speaks about every interleaving of boss and doer. *)
+Theorem C07_async_covered_by_sync : forall fl D t0 s0 steps s,
+  (forall c, In c (dest_cmds steps) -> mutating c = true) ->
+  areach (doer_exec fl) (ainit D steps) s ->
+  a_d s = rs_d (run_steps fl (stop_plan (length (a_done s)) (S (length steps))) (mkR D t0 s0 [] false 0 0 None) steps).
+Proof. exact async_covered_by_sync. Qed.
+
 (* a late error: the only command fails after the boss has already sent the final marker and is waiting *)
 Example C07_async_late_error :
   let d0 := world [([], NFolder)] AncOk [] in
@@ -134,3 +143,4 @@ Print Assumptions C07_async_ok_sound.
 Print Assumptions C07_async_no_error_lost.
 Print Assumptions C07_async_prefix.
 Print Assumptions C07_async_ok_agrees_with_sync.
+Print Assumptions C07_async_covered_by_sync.
